@@ -358,6 +358,20 @@ func judgeVia(r *rep.Report, c tcase, want []string) {
 		return
 	}
 	verdict(r, c, got, want, "Env.match")
+	// the same with the data arriving as a binding (as `event` and the `when` variables do in an action)
+	// and the pattern written in the script
+	bs := core.Bindings{"d": ref.Clone(c.D)}
+	v, err = viaLoc.RunJavascript(drv.Ctx(), "var norm = function(v){ if (v === undefined || v === null) return null; if (typeof v !== 'object') return v; var n = v.length; if (typeof n === 'number') { var a = []; for (var i = 0; i < n; i++) a.push(norm(v[i])); return a; } var o = {}; for (var k in v) o[k] = norm(v[k]); return o; }; JSON.stringify(norm(Env.match("+string(pj)+", d)))", nil, &bs, nil)
+	if err != nil {
+		r.Violate("", "Env.match (data from a binding) fails for an in-fragment input: "+err.Error(), rep.J{"case": c})
+		return
+	}
+	got, err = bindingsFromJSON(fmt.Sprint(v))
+	if err != nil {
+		r.Violate("", "Env.match (data from a binding) does not return an array of bindings", rep.J{"case": c, "value": fmt.Sprint(v)})
+		return
+	}
+	verdict(r, c, got, want, "Env.match (data from a binding)")
 }
 
 // judgeBind: Bindings.Bind (the substitution queries use before matching) must
